@@ -261,6 +261,19 @@ theorem drops (s : St) (i c : Nat) (v : Val) (n : Nat) (hinv : Inv s) (hl : look
       · have h' : ¬ (n + 1 < c) := by omega
         simp only [hn, h', ↓reduceIte]
 
+/-- **Typed drops** (`drop_smoc` …): on an index of ANOTHER kind, or a dead one, the call is an error and the registry is
+    unchanged — in particular the index still denotes the same MOC and is not handed out again; on an index of the right
+    kind it is `drop`.  (The code used to decrement and remove first and look at the kind afterwards:
+    /repo "fix: drop_smoc / … destroyed a MOC of another type".) -/
+theorem typed_drop_spec (s : St) (k i : Nat) :
+    (∀ v, valueAt s i = some v → v.kind ≠ k → dropKind s k i = (s, .err .kind)) ∧
+    (valueAt s i = none → dropKind s k i = (s, .err .notFound)) ∧
+    (∀ v, valueAt s i = some v → v.kind = k → dropKind s k i = step s (.drop i)) := by
+  refine ⟨fun v hv hk => ?_, fun hn => ?_, fun v hv hk => ?_⟩
+  · simp [dropKind, hv, hk]
+  · simp [dropKind, hn]
+  · simp [dropKind, hv, hk, step]
+
 /-- A successful copy adds exactly one to the number of drops the index survives. -/
 theorem copy_adds_one (s : St) (i c : Nat) (v : Val) (hinv : Inv s) (hl : lookup s i = some (c, v))
     (hc : c < 255) : lookup (step s (.copy i)).1 i = some (c + 1, v) ∧ (step s (.copy i)).2 = .unit := by
